@@ -29,6 +29,8 @@ def showSys : Sys → String
   | .rename a b => s!"rename:{String.ofList a}:{String.ofList b}"
   | .link a b => s!"link:{String.ofList a}:{String.ofList b}"
   | .remove p => s!"unlink:{String.ofList p}"
+  | .openKeep p => s!"open[|O_CREAT]:{String.ofList p}"
+  | .overwrite p d => s!"write:{String.ofList p}:{digest' d}"
 
 def parseEntry (s : String) : Option (Name × Bytes) :=
   match s.splitOn ":" with
